@@ -255,9 +255,9 @@ theorem mem_allPixels (g : Spec.Mono.G) (p : Nat × Nat) (h : p ∈ Spec.Mono.al
 
 /-- **C16, one step**: the property predicate holds for every operation on every well-formed canvas. -/
 theorem step_holds (c : Canvas) (hwf : c.WF) (op : Op) :
-    Spec.Mono.check (specG c.geo) (specOp op) c.bytes.length (applyOp c op).bytes.length
+    Spec.Mono.check (specG c.geo) (specOp op) c.bytes.size (applyOp c op).bytes.size
       (getPx c) (getPx (applyOp c op)) = none := by
-  have hlen : (applyOp c op).bytes.length = c.bytes.length := by
+  have hlen : (applyOp c op).bytes.size = c.bytes.size := by
     by_cases hd : Op.isDraw op = true
     · exact (applyOp_touch c hwf op hd).len hwf
     · rw [(setter_getPx c op (by simpa using hd) 0 0).2]
@@ -299,7 +299,7 @@ theorem step_holds (c : Canvas) (hwf : c.WF) (op : Op) :
 /-- every canvas reachable from `NewImage(w,h)` by any operation sequence is well-formed -/
 theorem newCanvas_wf (w h : Nat) : (newCanvas w h).WF := by
   unfold newCanvas Canvas.WF
-  simp only [List.length_replicate, and_true]
+  simp only [Array.size_replicate, and_true]
   omega
 
 theorem reachable_wf (w h : Nat) (ops : List Op) : (ops.foldl applyOp (newCanvas w h)).WF := by
@@ -313,7 +313,7 @@ theorem reachable_wf (w h : Nat) (ops : List Op) : (ops.foldl applyOp (newCanvas
 operation satisfies every clause of the property. -/
 theorem all_steps_hold (w h : Nat) (pre : List Op) (op : Op) :
     let c := pre.foldl applyOp (newCanvas w h)
-    Spec.Mono.check (specG c.geo) (specOp op) c.bytes.length (applyOp c op).bytes.length
+    Spec.Mono.check (specG c.geo) (specOp op) c.bytes.size (applyOp c op).bytes.size
       (getPx c) (getPx (applyOp c op)) = none :=
   step_holds _ (reachable_wf w h pre) op
 
